@@ -104,7 +104,7 @@ def find_lexicons(
     cur = connect().cursor()
     found = False
     for specifier in lexicon.split():
-        limit = '-1' if '*' in lexicon else '1'
+        limit = '-1' if '*' in specifier else '1'
         if ':' not in specifier:
             specifier += ':*'
         query = f'''
